@@ -13,7 +13,7 @@ Section Inv.
     unfold bindM. destruct (m s) as [[a s1]| | | | |]; try discriminate. intros H. now exists a, s1.
   Qed.
 
-  Lemma ret_inv {A} (a b : A) (s s' : S) : ret a s = Ok (b, s') -> b = a /\ s' = s.
+  Lemma ret_inv {A} (a b : A) (s s' : S) : ret a s = Ok (b, s') -> a = b /\ s' = s.
   Proof. unfold ret. intros H. injection H as <- <-. auto. Qed.
 
   Lemma lift_inv {A} (r : res A) (s s' : S) a : lift r s = Ok (a, s') -> r = Ok a /\ s' = s.
@@ -139,8 +139,9 @@ Lemma ep_randsign : env_pres r_randsign. Proof. apply ep_on_tape. Qed.
 Lemma ep_if {A} (c : bool) (m1 m2 : @M st A) : env_pres m1 -> env_pres m2 -> env_pres (if c then m1 else m2).
 Proof. now destruct c. Qed.
 
+Create HintDb ep.
 Ltac ep_step :=
-  first [ apply ep_ret | apply ep_lift | apply ep_fail | apply ep_float64 | apply ep_float32
+  first [ solve [auto 2 with ep nocore] | apply ep_ret | apply ep_lift | apply ep_fail | apply ep_float64 | apply ep_float32
         | apply ep_intn | apply ep_randsign | apply ep_on_tape | apply ep_e_innovs | apply ep_tape_len
         | assumption
         | apply ep_bind; [|intros ?]
@@ -148,4 +149,4 @@ Ltac ep_step :=
 Ltac ep := repeat ep_step.
 
 Lemma ep_mapM {A B} (f : A -> @M st B) : (forall x, env_pres (f x)) -> forall l, env_pres (mapM f l).
-Proof. intros Hf. induction l as [|x l IH]; cbn [mapM]; ep. apply Hf. Qed.
+Proof. intros Hf. induction l as [|x l IH]; cbn [mapM]; ep. Qed.
